@@ -117,6 +117,23 @@ class EditHooks(SysHooks):
         return super().call(sm, node, fname, args, kwargs, st)
 
     def loop(self, sm, node, st):
+        # an index scan `r = d; for i in range(len(X)): if C(i): r = i; break` (and its equivalent spellings) leaves
+        # r = FIRST(i in X with C(i), else d); the mirror forms leave LAST(..)
+        if isinstance(node, ast.For):
+            from .idioms import scan_form
+            sf = scan_form(node)
+            if sf is not None and sf[5] is not None and sf[5] in st.env:
+                form, lp, over, var, test, res = sf
+                s2 = st.fork()
+                s2.env[var] = Sym(("bound",))
+                try:
+                    cf = sm.cond(test, s2)
+                    ov = sm.expr(over, st)
+                except Unsupported:
+                    cf = None
+                if cf is not None:
+                    st.env[res] = Sym(("FIRST" if not form.endswith("-last") else "LAST", show_f(cf), vkey(ov), vkey(st.env[res])))
+                    return [(st, None)]
         # a loop over a short literal tuple / list is unrolled: for x in (a, b): body  ->  body[x:=a]; body[x:=b]
         if isinstance(node, ast.For) and not node.orelse and isinstance(node.iter, (ast.Tuple, ast.List)) and 1 <= len(node.iter.elts) <= 4 \
                 and not any(isinstance(e, ast.Starred) for e in node.iter.elts):
